@@ -362,6 +362,110 @@ def search(payload):
         call(order, 0)
         if [c[0] for c in log] != [f"a{i}" for i in range(k_)]:
             fails.append({"case": f"evaluation order of a {k_}-operand & chain", "calls": [c[0] for c in log][:8], "expected_first": [f"a{i}" for i in range(8)]})
+    # COMPOSITES OF COMPOSITES: every tree of 3 and 4 instrumented atoms under &, |, ^ (both associations) and ~ on a sub-tree: the answer and
+    # the exact sequence of atom calls are those of Python's own and / or / != / not, evaluated recursively
+    def oracle(spec, x, calls):
+        kind = spec[0]
+        if kind == "atom":
+            calls.append(spec[1])
+            if spec[2] == "raise":
+                raise RuntimeError(spec[1])
+            return spec[2]
+        if kind == "not":
+            return not oracle(spec[1], x, calls)
+        a = oracle(spec[1], x, calls)
+        if kind == "and":
+            return a and oracle(spec[2], x, calls)
+        if kind == "or":
+            return a or oracle(spec[2], x, calls)
+        return a != oracle(spec[2], x, calls)
+
+    def build_spec(spec):
+        if spec[0] == "atom":
+            return atom(spec[1], spec[2])
+        if spec[0] == "not":
+            return ~build_spec(spec[1])
+        a, b = build_spec(spec[1]), build_spec(spec[2])
+        return {"and": a & b, "or": a | b, "xor": a ^ b}[spec[0]]
+
+    def show(spec):
+        if spec[0] == "atom":
+            return f"{spec[1]}={spec[2]}"
+        if spec[0] == "not":
+            return f"~({show(spec[1])})"
+        return f"({show(spec[1])} {dict(zip(('and', 'or', 'xor'), '&|^'))[spec[0]]} {show(spec[2])})"
+    ops3 = ("and", "or", "xor")
+    specs = []
+    for o1, o2 in itertools.product(ops3, repeat=2):
+        for bits in itertools.product((True, False), repeat=3):
+            a, b, c = (("atom", nm, bv) for nm, bv in zip("abc", bits))
+            specs += [(o1, (o2, a, b), c), (o1, a, (o2, b, c))]
+            if bits[0] and o1 == "xor":
+                specs += [(o1, ("not", (o2, a, b)), c), ("not", (o1, a, (o2, b, c)))]
+    for o1, o2, o3 in itertools.product(ops3, repeat=3):
+        for bits in itertools.product((True, False), repeat=4):
+            a, b, c, d = (("atom", nm, bv) for nm, bv in zip("abcd", bits))
+            specs.append((o1, (o2, a, b), (o3, c, d)))
+            if o1 == o2 == o3:
+                specs += [(o1, (o1, (o1, a, b), c), d), (o1, a, (o1, b, (o1, c, d)))]
+    for o1, o2 in itertools.product(ops3, repeat=2):          # a raising atom in every position of a 3-leaf tree
+        for pos in range(3):
+            for bits in itertools.product((True, False), repeat=2):
+                vals = list(bits)
+                vals.insert(pos, "raise")
+                a, b, c = (("atom", nm, bv) for nm, bv in zip("abc", vals))
+                specs += [(o1, (o2, a, b), c), (o1, a, (o2, b, c))]
+    bad_kinds = set()
+    for spec in specs:
+        n += 1
+        want_calls = []
+        try:
+            want = oracle(spec, 0, want_calls)
+        except RuntimeError:
+            want = "raise"
+        del log[:]
+        k, r = call(build_spec(spec), 0)
+        got = "raise" if k == "raise" else r
+        if (got != want or [c[0] for c in log] != want_calls) and len(bad_kinds) < 4:
+            bad_kinds.add(show(spec))
+            fails.append({"case": "composite of composites over instrumented atoms (name=answer)", "tree": show(spec), "x": "0", "result": repr(got), "expected": repr(want),
+                          "calls": [c[0] for c in log], "expected_calls": want_calls})
+    # the same on LIBRARY atoms: three ordered atoms that are all true / partly true at x
+    for a, b, c in ((ge_p(2), ge_p(4), ge_p(6)), (is_int_p, gt_p(0), lt_p(10)), (ne_p(0), ne_p(1), ne_p(2))):
+        for x in (0, 1, 3, 5, 6, 7, 12, -1):
+            pa, pb, pc = call(a, x)[1], call(b, x)[1], call(c, x)[1]
+            for label, node, want in (("(a ^ b) ^ c", (a ^ b) ^ c, (pa != pb) != pc), ("a ^ (b ^ c)", a ^ (b ^ c), pa != (pb != pc)),
+                                      ("(a & b) ^ c", (a & b) ^ c, (pa and pb) != pc), ("a | (b ^ c)", a | (b ^ c), pa or (pb != pc)),
+                                      ("~(a ^ b) & c", ~(a ^ b) & c, (not (pa != pb)) and pc), ("(a ^ b) ^ (c ^ a)", (a ^ b) ^ (c ^ a), (pa != pb) != (pc != pa))):
+                n += 1
+                got = call(node, x)
+                if got != ("ok", bool(want)):
+                    fails.append({"case": f"{label} with a, b, c = {a!r}, {b!r}, {c!r}", "x": repr(x), "result": repr(got), "expected": bool(want)})
+    # quantifier inside quantifier: rows whose elements are themselves iterable (tuples, strings): for-all / exists over the ROWS of
+    # for-all / exists over each row's OWN elements, nothing flattened, stopping at the first deciding row and element
+    tables = [[[(0, 0), (1, 2)], [(3, 4)]], [[1, (2, 3)]], ["aei", "ou"], ["ab", "e"], [[1, 2], [3]], [[], [1]], [], [[]], [[(1,)], []], [("ab", "cd"), ("e",)],
+              [[1, [2]], [3]], [[[1, 2]], [[3]]]]
+    elem = (("type(v) is tuple", lambda v: type(v) is tuple), ("type(v) is int", lambda v: type(v) is int), ("v in 'aeiou'", lambda v: isinstance(v, str) and v in "aeiou"),
+            ("type(v) is list", lambda v: type(v) is list))
+    for tb in tables:
+        for bname, beh in elem:
+            for (qo, fo, no), (qi, fi, ni) in itertools.product(((all_p, all, "all_p"), (any_p, any, "any_p")), repeat=2):
+                n += 1
+                seen = []
+
+                def f_(v, beh=beh, seen=seen):
+                    seen.append(v)
+                    return beh(v)
+                try:
+                    want = fo(fi(f_(v) for v in row) for row in tb)
+                    want_seen = list(seen)
+                except TypeError:
+                    continue                    # a row that is not iterable: outside the property
+                del log[:]
+                got = call(qo(qi(atom("A", beh))), tb)
+                if got != ("ok", want) or [c[1] for c in log] != want_seen:
+                    fails.append({"case": f"{no}({ni}(atom)) with atom = {bname}", "x": repr(tb), "result": repr(got), "expected": want,
+                                  "atom_called_on": repr([c[1] for c in log])[:200], "expected_calls_on": repr(want_seen)[:200]})
     # nested comp_p: comp_p(f, comp_p(g, p))(x) is p(g(f(x)))
     for f_, g_, x, want in ((len, str, "abc", "3"), (len, str, [7, 8, 9], "3"), (str, len, 12345, 5), (lambda v: v + 1, lambda v: v * 2, 3, 8), (lambda v: v * 2, lambda v: v + 1, 3, 7)):
         n += 1
